@@ -430,6 +430,14 @@ impl MerkleTree {
     @*/
 
     /// nodes read from the local tree store (and those waiting to be flushed) describe less than 2^48 bytes each
+    /// the tree's own nodes carry the size of the blocks below them, under the assignment `boff`
+    pub open spec fn tree_sized(&self) -> bool {
+        &&& forall|k: int| 0 <= k < self.roots@.len() ==> (#[trigger] self.roots@[k]).length == span_len(self.roots@[k].index)
+        &&& forall|k: u64| #![trigger self.unflushed@[k]] self.unflushed@.contains_key(k) ==> self.unflushed@[k].length == span_len(k)
+        &&& self.byte_length == boff(self.length as int)
+    }
+    /// ... and so does every node just read from the tree store
+    pub open spec fn all_sized(&self, nodes: &IntMap<Option<Node>>) -> bool { self.tree_sized() && map_sized(*nodes) }
     pub open spec fn nodes_small(&self, nodes: &IntMap<Option<Node>>) -> bool {
         &&& map_small(*nodes)
         &&& self.unflushed_small()
@@ -494,23 +502,35 @@ impl MerkleTree {
         &&& forall|k: int| 0 <= k < self.roots@.len() ==> (#[trigger] self.roots@[k]).length <= 0xffff_ffff_ffff
     }
 
-    /*@ fn src/tree/merkle_tree.rs MerkleTree::byte_offset_from_nodes
-    tags: C09 C03
+    /*@ fn src/tree/merkle_tree.rs MerkleTree::byte_offset_from_nodes ; noisolation
+    tags: C09 C03 C01
     result: r
     requires:
         self.t_wf(), self.roots_wf(), self.nodes_small(nodes), index < 0x8000_0000_0000
     ensures:
         left_ok(r),
-        r is Ok && r->Ok_0 is Right ==> r->Ok_0->Right_0 <= 0x80_0000_0000_0000
+        r is Ok && r->Ok_0 is Right ==> r->Ok_0->Right_0 <= 0x80_0000_0000_0000,
+        // C01 / C03: the offset is the number of bytes stored before the first block below `index`
+        self.all_sized(nodes) && r is Ok && r->Ok_0 is Right ==> r->Ok_0->Right_0 == boff(leaf_no(index))
+    first:
+        let ghost index0 = index;
     sub `for root_node in &self\.roots \{` => `let mut vp_i: usize = 0; while vp_i < self.roots.len() { let root_node = &self.roots[vp_i]; vp_i += 1;`
     after `let index = if (index & 1) == 1 {`:
         // (nothing: the rebinding below is the leftmost leaf of an odd index)
     before `let mut head: u64 = 0;`:
-        proof { let ghost ix = index; assert(((ix & 1) == 1) == (ix % 2 == 1)) by (bit_vector); }
+        proof { let ghost ix = index; assert(((ix & 1) == 1) == (ix % 2 == 1)) by (bit_vector);
+            let ghost i0 = index0; assert(((i0 & 1) == 1) == (i0 % 2 == 1)) by (bit_vector);
+            lemma_leaf_no_even(index);
+            if index0 % 2 == 1 { assert(p2(depth_of(index0) + 1) == 2 * p2(depth_of(index0)));
+                assert(offset_of(index0) * p2(depth_of(index0) + 1) == 2 * (offset_of(index0) * p2(depth_of(index0)))) by (nonlinear_arith) requires p2(depth_of(index0) + 1) == 2 * p2(depth_of(index0)); }
+            assert(index / 2 == leaf_no(index0));
+            broadcast use axiom_boff_mono;
+        }
     loop 1:
         invariant
             self.t_wf(), self.roots_wf(), self.nodes_small(nodes), index < 0x8000_0000_0000, index % 2 == 0,
-            vp_i <= self.roots@.len(), head == root_start(self.roots@, vp_i as int), index >= head, offset <= vp_i * 0x1_0000_0000_0000, head % 2 == 0, head <= 2 * self.length
+            vp_i <= self.roots@.len(), head == root_start(self.roots@, vp_i as int), index >= head, offset <= vp_i * 0x1_0000_0000_0000, head % 2 == 0, head <= 2 * self.length,
+            self.all_sized(nodes) ==> offset == boff(head as int / 2)
         decreases self.roots@.len() - vp_i
     before `head += 2 * ((root_node.index - head) + 1);`:
         proof {
@@ -524,20 +544,28 @@ impl MerkleTree {
             assert(root_start(self.roots@, vp_i as int) == root_start(self.roots@, vp_i - 1) + p2(depth_of(self.roots@[vp_i - 1].index) + 1));
             assert(p2(depth_of(root_node.index) + 1) == 2 * p2(depth_of(root_node.index)));
             flat_tree::lemma_p2_pos(depth_of(root_node.index));
+            lemma_root_span(self.roots@, vp_i - 1);
         }
         let ghost head0 = head;
     after `let mut iter = flat_tree::Iterator::new(root_node.index);`:
         proof {
             flat_tree::lemma_node_of(iter);
             lemma_root_iter(iter, head0 as int, head as int, index);
+            assert(iter.offset * p2(iter.d@) == head0 as int / 2);
         }
     loop 2:
         invariant
             instr_tree(instructions@),
             self.t_wf(), self.nodes_small(nodes), iter.wf(), iter.spans(index as int), index % 2 == 0, index < 0x400_0000_0000,
-            iter.d@ <= 42, iter.index < 0x800_0000_0000, offset <= (vp_i + 64 - iter.d@) * 0x1_0000_0000_0000, vp_i <= 64
+            iter.d@ <= 42, iter.index < 0x800_0000_0000, offset <= (vp_i + 64 - iter.d@) * 0x1_0000_0000_0000, vp_i <= 64,
+            self.all_sized(nodes) && instructions@.len() == 0 ==> offset == boff(iter.offset * p2(iter.d@))
         decreases iter.d@
+    before `let node_or_instruction = self.required_node(left_child, nodes)?;`:
+        proof { flat_tree::lemma_node_of(iter); }
+    before `return if instructions.is_empty() {`:
+        proof { flat_tree::lemma_node_of(iter); lemma_leaf_no_even(index); assert(p2(0) == 1); }
     before `if index < iter.index() {`:
+        proof { lemma_child_leaf_no(iter.d@, iter.offset as int); }
         proof {
             assert(p2(0) == 1);
             assert(iter.d@ > 0);
@@ -650,7 +678,9 @@ impl MerkleTree {
         old(self).t_wf(), old(self).roots_wf(), old(self).unflushed_small(), infos_small(infos), infos_readable(infos), index < 0x8000_0000_0000
     ensures:
         *final(self) == *old(self),
-        r is Ok && r->Ok_0 is Left ==> r->Ok_0->Left_0@.len() > 0 && instr_tree(r->Ok_0->Left_0@)
+        r is Ok && r->Ok_0 is Left ==> r->Ok_0->Left_0@.len() > 0 && instr_tree(r->Ok_0->Left_0@),
+        r is Ok && r->Ok_0 is Right ==> r->Ok_0->Right_0 <= 0x80_0000_0000_0000,
+        old(self).tree_sized() && infos_sized(infos) && r is Ok && r->Ok_0 is Right ==> r->Ok_0->Right_0 == boff(leaf_no(index))
     @*/
     /*@ fn src/tree/merkle_tree.rs MerkleTree::byte_offset
     tags: C09 C01
@@ -660,7 +690,11 @@ impl MerkleTree {
     ensures:
         *final(self) == *old(self),
         r is Ok ==> hypercore_index < old(self).length,
-        r is Ok && r->Ok_0 is Left ==> r->Ok_0->Left_0@.len() > 0 && instr_tree(r->Ok_0->Left_0@)
+        r is Ok && r->Ok_0 is Left ==> r->Ok_0->Left_0@.len() > 0 && instr_tree(r->Ok_0->Left_0@),
+        // C01: the bytes of block i start after the bytes of blocks 0..i
+        old(self).tree_sized() && infos_sized(infos) && r is Ok && r->Ok_0 is Right ==> r->Ok_0->Right_0 == boff(hypercore_index as int)
+    last:
+        proof { lemma_leaf_no_even((2 * hypercore_index) as u64); }
     @*/
     /*@ fn src/tree/merkle_tree.rs MerkleTree::byte_range
     tags: C09 C01
@@ -670,8 +704,98 @@ impl MerkleTree {
     ensures:
         *final(self) == *old(self),
         r is Ok ==> hypercore_index < old(self).length,
-        r is Ok && r->Ok_0 is Left ==> r->Ok_0->Left_0@.len() > 0 && instr_tree(r->Ok_0->Left_0@)
+        r is Ok && r->Ok_0 is Left ==> r->Ok_0->Left_0@.len() > 0 && instr_tree(r->Ok_0->Left_0@),
+        // C01: block i occupies the bytes [boff(i), boff(i+1)) of the data store
+        old(self).tree_sized() && infos_sized(infos) && r is Ok && r->Ok_0 is Right ==> r->Ok_0->Right_0.index == boff(hypercore_index as int)
+            && r->Ok_0->Right_0.index + r->Ok_0->Right_0.length == boff(hypercore_index + 1)
     sub `instructions\.extend\((\w+)\);` => `vp_extend(&mut instructions, \1);`
+    before `let mut instructions: Vec<StoreInfoInstruction> = Vec::new();`:
+        proof { lemma_leaf_no_even(index); assert(p2(0) == 1); }
+    @*/
+
+    /*@ fn src/tree/merkle_tree.rs MerkleTree::byte_offset_in_changeset
+    tags: C03 C01 C09
+    result: r
+    requires:
+        old(self).t_wf(), old(self).roots_wf(), old(self).unflushed_small(), infos_small(infos), infos_readable(infos), hypercore_index < 0x100_0000_0000,
+        changeset.roots@.len() <= 64, changeset.nodes@.len() <= 0x100_0000,
+        forall|i: int| 0 <= i < changeset.nodes@.len() ==> (#[trigger] changeset.nodes@[i]).index < 0x200_0000_0000 && changeset.nodes@[i].length <= 0xffff_ffff_ffff,
+        forall|i: int| 0 <= i < changeset.roots@.len() ==> (#[trigger] changeset.roots@[i]).length <= 0xffff_ffff_ffff,
+        // assumption A-sized: the sizes carried by the nodes of a verified changeset are those of one assignment of block sizes
+        // (every parent is computed as the sum of its children, and what the peer sent is bound by the signed hashes);
+        // the subtraction `node.length - parent.length` relies on it
+        cs_sized(changeset)
+    ensures:
+        *final(self) == *old(self),
+        r is Ok && r->Ok_0 is Left ==> r->Ok_0->Left_0@.len() > 0 && instr_tree(r->Ok_0->Left_0@),
+        // C03 / C01: the block is stored after the bytes of the blocks before it - in the tree as it will be once the changeset is committed
+        old(self).tree_sized() && infos_sized(infos) && changeset.cs_mr() && r is Ok && r->Ok_0 is Right ==> r->Ok_0->Right_0 == boff(hypercore_index as int)
+    sub `for node in &changeset\.nodes \{` => `for node in it_n: changeset.nodes.iter() {`
+    sub `changeset\s*\.roots\s*\.iter\(\)\s*\.position\(\|root\| (.*?)\);` => `{ let ghost vp_pi = parent.index; let ghost vp_p = |root: Node| root.index == vp_pi; vp_position(&changeset.roots, |root: &Node| -> (vp_b: bool) ensures vp_b == (root.index == parent.index) { \1 }, Ghost(vp_p)) };`
+    first:
+        broadcast use axiom_boff_mono;
+        let ghost h = hypercore_index as int;
+    after `let mut parent: Option<Node> = None;`:
+        let ghost mut gc: flat_tree::Iterator = iter;
+        proof { lemma_leaf_no_even(index); assert(p2(0) == 1); }
+    loop 1:
+        invariant
+            iter.wf(), index == 2 * h, 0 <= h < 0x100_0000_0000, cs_sized(changeset),
+            changeset.nodes@.len() <= 0x100_0000,
+            forall|i: int| 0 <= i < changeset.nodes@.len() ==> (#[trigger] changeset.nodes@[i]).index < 0x200_0000_0000 && changeset.nodes@[i].length <= 0xffff_ffff_ffff,
+            parent is None ==> iter.index == index && iter.d@ == 0 && iter.offset == h && tree_offset == 0 && !is_right,
+            parent is Some ==> gc.wf() && parent->Some_0.index == gc.index && parent->Some_0.length == span_len(gc.index) && gc.index < 0x200_0000_0000
+                && iter.d@ == gc.d@ + 1 && iter.offset == gc.offset / 2 && is_right == (gc.offset % 2 == 1)
+                && gc.offset * p2(gc.d@) <= h < gc.offset * p2(gc.d@) + p2(gc.d@)
+                && tree_offset == boff(h) - boff(gc.offset * p2(gc.d@)) && tree_offset <= 0xffff_ffff_ffff
+    before `if is_right {`:
+        let ghost par0 = parent;
+        proof {
+            flat_tree::lemma_node_of(iter);
+            lemma_index_depth(iter);
+            assert(node.length == span_len(node.index));
+            assert(p2(0) == 1);
+            if parent is Some {
+                lemma_child_leaf_no(iter.d@, iter.offset as int);
+                flat_tree::lemma_node_of(gc);
+                flat_tree::lemma_p2_pos(gc.d@);
+                assert(p2(iter.d@) == 2 * p2(gc.d@));
+                assert(iter.offset * p2(iter.d@) >= 0) by (nonlinear_arith) requires iter.offset >= 0, p2(iter.d@) >= 0;
+                axiom_boff_mono(iter.offset * p2(iter.d@), gc.offset * p2(gc.d@));
+            }
+        }
+    before `iter.parent();`:
+        proof {
+            // the new child on the path is the node iter is on
+            let d = iter.d@; let o = iter.offset as int;
+            flat_tree::lemma_p2_pos(d);
+            assert(o * p2(d) <= h < o * p2(d) + p2(d)) by {
+                if par0 is Some { assert(gc.offset as int == 2 * o || gc.offset as int == 2 * o + 1); }
+            }
+            assert(o * p2(d) >= 0) by (nonlinear_arith) requires o >= 0, p2(d) >= 0;
+            axiom_boff_mono(o * p2(d), h); axiom_boff_mono(h, o * p2(d) + p2(d));
+            assert(tree_offset == boff(h) - boff(o * p2(d)));
+            assert(tree_offset <= node.length);
+            gc = iter;
+        }
+    before `for i in 0..r {`:
+        let ghost t1 = tree_offset as int;
+        proof {
+            flat_tree::lemma_node_of(gc);
+            if changeset.cs_mr() {
+                lemma_prefix_len(changeset.roots@, r as int);
+                assert(mr_at(changeset.roots@, r as int));
+                lemma_root_span(changeset.roots@, r as int);
+            }
+        }
+    loop 2:
+        invariant
+            r < changeset.roots@.len() <= 64, t1 <= 0xffff_ffff_ffff, tree_offset == t1 + prefix_len(changeset.roots@, i as int), tree_offset <= t1 + i * 0x1_0000_0000_0000,
+            forall|k: int| 0 <= k < changeset.roots@.len() ==> (#[trigger] changeset.roots@[k]).length <= 0xffff_ffff_ffff
+    before `match self.byte_offset_from_index(search_index, infos)? {`:
+        proof {
+            if parent is Some { flat_tree::lemma_node_of(gc); } else { lemma_leaf_no_even(index); flat_tree::lemma_node_of(iter); assert(p2(0) == 1); }
+        }
     @*/
 
     /*@ fn src/tree/merkle_tree.rs MerkleTree::truncate
@@ -759,6 +883,29 @@ impl MerkleTree {
 }
 
 /// an iterator on the root of the full tree over the flat range [head0, head): the leaves in that range are inside its span
+/// the nodes and roots of a changeset carry the size of the blocks below them, under the assignment `boff`
+pub open spec fn cs_sized(cs: &MerkleTreeChangeset) -> bool {
+    &&& forall|i: int| 0 <= i < cs.nodes@.len() ==> (#[trigger] cs.nodes@[i]).length == span_len(cs.nodes@[i].index)
+    &&& forall|k: int| 0 <= k < cs.roots@.len() ==> (#[trigger] cs.roots@[k]).length == span_len(cs.roots@[k].index)
+}
+/// bytes below the first r roots
+pub open spec fn prefix_len(roots: Seq<Node>, r: int) -> int
+    decreases r
+{ if r <= 0 { 0 } else { prefix_len(roots, r - 1) + roots[r - 1].length } }
+pub proof fn lemma_prefix_len(roots: Seq<Node>, r: int)
+    requires 0 <= r <= roots.len(), mr(roots), forall|k: int| 0 <= k < roots.len() ==> (#[trigger] roots[k]).length == span_len(roots[k].index)
+    ensures prefix_len(roots, r) == boff(root_start(roots, r) / 2), root_start(roots, r) % 2 == 0, root_start(roots, r) >= 0
+    decreases r
+{
+    broadcast use axiom_boff_mono;
+    if r > 0 {
+        lemma_prefix_len(roots, r - 1);
+        assert(mr_at(roots, r - 1));
+        lemma_root_span(roots, r - 1);
+        lemma_root_start_even(roots, r);
+        lemma_root_start_mono(roots, 0, r);
+    }
+}
 pub proof fn lemma_root_iter(it: flat_tree::Iterator, head0: int, head: int, index: u64)
     requires it.wf(), it.index == head0 + p2(it.d@) - 1, head == head0 + 2 * p2(it.d@), head0 >= 0, head0 % 2 == 0, index % 2 == 0,
         head0 <= index < head, head <= 0x400_0000_0000
